@@ -467,20 +467,30 @@ func genAF(t *rapid.T) AF {
 	return a
 }
 
+func genBCase(t *rapid.T) BCase {
+	var c BCase
+	for i, n := 0, rapid.IntRange(2, 6).Draw(t, "na"); i < n; i++ {
+		c.Audio = append(c.Audio, genAF(t))
+	}
+	for i, n := 0, rapid.IntRange(2, 6).Draw(t, "nv"); i < n; i++ {
+		v := VF{Codec: rapid.SampledFrom([]uint8{7, 12, 2, 4}).Draw(t, "codec"), FType: uint8(rapid.IntRange(0, 15).Draw(t, "ftype")), Raw: rapid.SliceOfN(rapid.Byte(), 4, 30).Draw(t, "vraw")}
+		if v.Codec == 7 || v.Codec == 12 {
+			v.Trait = rapid.Uint8().Draw(t, "vtrait")
+			v.CTS = int32(rapid.IntRange(0, 1<<24-1).Draw(t, "cts"))
+		}
+		c.Video = append(c.Video, v)
+	}
+	return c
+}
+
+// TestSideBySide: independent packagers on several goroutines at once.
+func TestSideBySide(t *testing.T) {
+	ev.Parallel(t, prop, "side-by-side", 6, 400, 120, genBCase, runBatch)
+}
+
 func TestPackagerReuse(t *testing.T) {
 	ev.Rapid(t, "packager-reuse", 3000, 6000000, func(t *rapid.T) {
-		var c BCase
-		for i, n := 0, rapid.IntRange(2, 6).Draw(t, "na"); i < n; i++ {
-			c.Audio = append(c.Audio, genAF(t))
-		}
-		for i, n := 0, rapid.IntRange(2, 6).Draw(t, "nv"); i < n; i++ {
-			v := VF{Codec: rapid.SampledFrom([]uint8{7, 12, 2, 4}).Draw(t, "codec"), FType: uint8(rapid.IntRange(0, 15).Draw(t, "ftype")), Raw: rapid.SliceOfN(rapid.Byte(), 4, 30).Draw(t, "vraw")}
-			if v.Codec == 7 || v.Codec == 12 {
-				v.Trait = rapid.Uint8().Draw(t, "vtrait")
-				v.CTS = int32(rapid.IntRange(0, 1<<24-1).Draw(t, "cts"))
-			}
-			c.Video = append(c.Video, v)
-		}
+		c := genBCase(t)
 		err := ev.Try(func() error { return runBatch(c) })
 		recBatch.Case(true, ev.Hash(c), nil, func() any { return c })
 		if err != nil {
@@ -542,6 +552,13 @@ func replayers() map[string]ev.Replayer {
 				return err
 			}
 			return runR(c)
+		},
+		"side-by-side": func(raw json.RawMessage) error {
+			var c BCase
+			if err := json.Unmarshal(raw, &c); err != nil {
+				return err
+			}
+			return runBatch(c)
 		},
 		"packager-reuse": func(raw json.RawMessage) error {
 			var c BCase
